@@ -15,6 +15,7 @@ import ClvmProofs.Lemmas.RefOps
 import ClvmProofs.Lemmas.RefLoops
 import ClvmProofs.Lemmas.RefPath
 import ClvmProofs.Lemmas.RefMachine
+import ClvmProofs.Lemmas.RefSim
 
 namespace Clvm.Props.C01
 open Clvm Clvm.Interp Clvm.Ref
@@ -220,6 +221,29 @@ theorem C01_main_partial (lenient : Bool) (prog env : Tree) (h1 : OneStep prog) 
     (hm : modelRun (fuel + 1) prog env budget = some mo)
     (hr : adaptedRun lenient (fuel' + 2) prog env budget = some ro) : SameOutcome mo ro :=
   one_step_agree lenient prog env h1 budget fuel fuel' mo ro hm hr
+
+/-- **`C01_main_core_partial`**: whole programs on the *core fragment* (`Adapter.coreFragment`: all
+consensus adapters, operand lists read like the Python; a run that evaluates a `((X) …)` form or
+applies opcode 36 is outside the domain), every budget, any fuel on either side.  Whenever both
+machines terminate, they succeed with the same cost and the same tree, or both fail — unless the
+reference left the domain / hit the adapted stack limit (`BadR`) or the model hit an allocator or
+stack limit or an operator it does not implement (`BadM`).
+
+The proof is a simulation between the two op-stack machines (`Lemmas/RefSim.lean`): both are
+described by the same continuation (a list of call frames) in one of two positions; the positions
+"value produced" (`Cons` / `cons`, and the end of the run) and "next operand" (`SwapEval` /
+`swap; eval`, through `eval_agree`: paths by `path_eq`, quotations, operator calls with their operand
+lists and the nil-terminator check) are proved.  **What is left** is the hypothesis `ApplyCase`: the
+`Apply` position, i.e. (i) `(a P E)` — `apply; eval` against `apply_op`'s immediate `eval_pair`,
+(ii) opcode 36 (outside the fragment), (iii) an ordinary operator: the two dispatch tables against each
+other, opcode by opcode, which is where the `ref_op_eq_*` theorems plug in (`OpAgree` is exactly the
+`StepAgree` needed there); for (iii) `ref_op_eq` for concat, logand, logior, logxor and the
+unknown-operator rule are still missing as well. -/
+theorem C01_main_core_partial (prog env : Tree) (budget fuel fuel' : Nat) (hA : ApplyCase (Ref.effBudget budget))
+    (ro : Res) (mo : Except Err (Nat × Val × Ctr))
+    (hr : Ref.runWith coreAd fuel' prog env (Adapter.u64Budget budget) = some ro)
+    (hm : modelRun fuel prog env budget = some mo) : RunOut ro mo :=
+  core_run_agree prog env budget fuel fuel' hA ro mo hr hm
 
 example : OneStep (.atom [0, 0, 11]) := trivial
 example : OneStep (.pair (.atom [1]) (.atom [7])) := rfl
